@@ -7,8 +7,11 @@
 (* exactly (cross-multiplied, x = xs / L).  Floats on diagonally dominant systems: the  *)
 (* harness logs backward-error units, the bound lives here.                             *)
 EXTENDS TraceBase, Tridiag
-VARIABLES l
-vars == <<l>>
+VARIABLES l, cur, curi, bad
+vars == <<l, cur, curi, bad>>
+\* cur / curi: the MODEL's current value (real / imaginary part) of the object a sequence works on, computed by the
+\* operators of Tridiag.tla from the operations seen so far; every event of a sequence must start from it.
+\* bad: the case in which an event was not explained (its later exact det / solve events are reported unjudged)
 
 \* Thomas elimination on a diagonally dominant matrix: |dT| <= (4u + O(u^2)) |L||U| <= 12u |T| (Higham, Thm 9.14);
 \* constant factor 8 on top; complex arithmetic: one more factor 8
@@ -18,12 +21,28 @@ SolveGuard == 96
 DetGuard(n) == 32 * n
 Cx(e) == IF e.cxf THEN 8 ELSE 1
 
+\* strict diagonal dominance of A + iB from the integer parts: |a_ii + i b_ii| >= max(|a_ii|, |b_ii|) and
+\* |a + ib| <= |a| + |b|
+Off(T, Ti, k, which) == IF which = "sub" THEN IAbs(T.sub[k]) + IAbs(Ti.sub[k]) ELSE IAbs(T.sup[k]) + IAbs(Ti.sup[k])
+DiagAt(T, Ti, i) == IMax(IAbs(T.main[i]), IAbs(Ti.main[i]))
+Dominant(T, Ti) ==
+    \/ \A i \in 1..T.n : DiagAt(T, Ti, i) > (IF i > 1 THEN Off(T, Ti, i - 1, "sub") ELSE 0) + (IF i < T.n THEN Off(T, Ti, i, "sup") ELSE 0)      \* rows
+    \/ \A i \in 1..T.n : DiagAt(T, Ti, i) > (IF i > 1 THEN Off(T, Ti, i - 1, "sup") ELSE 0) + (IF i < T.n THEN Off(T, Ti, i, "sub") ELSE 0)      \* columns
 GoodT(e, X) == ~e.panic /\ SameTri(e.post, X)                              \* mutator / constructor
 GoodRT(e, X) == ~e.panic /\ SameTri(e.post, e.pre) /\ SameTri(e.rt, X)     \* observer returning a tridiagonal matrix
 Given(e) == [n |-> Len(e.main), sub |-> e.sub, main |-> e.main, sup |-> e.sup]
 
 Explained(e) ==
-  CASE e.op = "convert" -> ~e.panic /\ SameMat(e.rm, TDense(e.pre))
+  CASE e.op \in {"convert", "dense"} -> ~e.panic /\ SameMat(e.rm, TDense(e.pre))     \* dense = every read through the index operator
+    \* resize: the property is silent on what is kept (the code's own TODO); only the new size is demanded, and whatever
+    \* the object then holds is the operand of the following events
+    [] e.op = "resize" -> ~e.panic /\ TWellFormed(e.post) /\ e.post.n = e.n2
+    \* the object re-bound to the result of an operator applied to it
+    [] e.op = "rebind_neg" -> GoodT(e, TNeg(e.pre))
+    [] e.op = "rebind_add" -> GoodT(e, TAdd(e.pre, e.b))
+    [] e.op = "rebind_sub" -> GoodT(e, TSub(e.pre, e.b))
+    [] e.op = "rebind_mul" -> GoodT(e, TScale(e.pre, e.s))
+    [] e.op = "rebind_div" -> GoodT(e, TDivS(e.pre, e.s))
     [] e.op = "get" -> IF TInBand(e.pre, e.i, e.j) THEN ~e.panic /\ e.ri = TGet(e.pre, e.i, e.j)
                        ELSE e.panic \/ e.ri = 0           \* off the three diagonals: refuse, or the dense twin's zero
     [] e.op = "size" -> ~e.panic /\ e.rn = e.pre.n
@@ -67,13 +86,58 @@ Explained(e) ==
     \* floats on integer data where only the zero tests are exact: the outcome (answer or refusal) is decided by the model
     [] e.op = "solve_outcome" -> IF SomePivotZero(e.pre) THEN e.panic /\ e.zero ELSE ~e.panic /\ e.finite
     \* ---- floats ----
+    \* floats in a sequence: the bound is demanded where the model state is strictly diagonally dominant (by rows or by
+    \* columns; for complex entries a sufficient integer condition on the parts), which also excludes zero pivots
+    [] e.op = "solve_dd" -> IF Dominant(e.pre, IF Has(e, "prei") THEN e.prei ELSE TScale(e.pre, 0)) THEN ~e.panic /\ e.units >= 0 /\ e.units <= Cx(e) * SolveGuard ELSE TRUE
     [] e.op = "solve_units" -> ~e.panic /\ e.units >= 0 /\ e.units <= Cx(e) * SolveGuard
     [] e.op = "det_units" -> ~e.panic /\ e.units >= 0 /\ e.units <= Cx(e) * DetGuard(e.n)
     [] OTHER -> FALSE
 
-Init == l = 1 /\ TLCSet(1, 0)
+\* ---- model state ----
+IsSeq(e) == Has(e, "seq")
+ImPart(e) == Has(e, "part") /\ e.part = "im"
+TwoParts(e) == Has(e, "prei")
+PreOK(e) == IF ~IsSeq(e) \/ e.op = "built" THEN TRUE
+            ELSE IF TwoParts(e) THEN SameTri(e.pre, cur) /\ SameTri(e.prei, curi)
+            ELSE IF ImPart(e) THEN SameTri(e.pre, curi) ELSE SameTri(e.pre, cur)
+After(e) == CASE e.op = "set" -> TSet(e.pre, e.i, e.j, e.x)
+              [] e.op = "transpose_in_place" -> TTranspose(e.pre)
+              [] e.op \in {"mul_assign", "rebind_mul"} -> TScale(e.pre, e.s)
+              [] e.op \in {"div_assign", "rebind_div"} -> TDivS(e.pre, e.s)
+              [] e.op = "add_scalar_assign" -> TShift(e.pre, e.s)
+              [] e.op = "sub_scalar_assign" -> TShift(e.pre, -e.s)
+              [] e.op = "rebind_neg" -> TNeg(e.pre)
+              [] e.op = "rebind_add" -> TAdd(e.pre, e.b)
+              [] e.op = "rebind_sub" -> TSub(e.pre, e.b)
+              [] e.op = "with_elements" -> TWithElements(e.lo, e.di, e.up, e.n)
+              [] e.op = "new" -> TNew(e.n)
+              [] e.op \in {"with_vecs", "with_vectors"} -> Given(e)
+Mutators == {"set", "transpose_in_place", "mul_assign", "rebind_mul", "div_assign", "rebind_div", "add_scalar_assign", "sub_scalar_assign",
+             "rebind_neg", "rebind_add", "rebind_sub", "with_elements", "new", "with_vecs", "with_vectors"}
+NextPart(e, v, ok) ==
+    IF e.op = "built" THEN (IF e.panic THEN v ELSE Given(e))
+    ELSE IF ~ok THEN (IF Has(e, "post") THEN e.post ELSE v)                 \* re-synchronise on the logged state
+    ELSE IF e.op \in Mutators THEN After(e)
+    ELSE IF e.op = "resize" THEN e.post
+    ELSE v
+Unjudged(e) == IsSeq(e) /\ e.cid = bad /\ e.op \in {"det", "solve"}
+NoTri == [n |-> 0, sub |-> <<>>, main |-> <<>>, sup |-> <<>>]
+
+Init == l = 1 /\ cur = NoTri /\ curi = NoTri /\ bad = -1 /\ TLCSet(1, 0)
 Step == /\ l <= NRec
-        /\ LET e == Rec[l] IN IF Explained(e) THEN TRUE ELSE Mismatch(l, e, e.op)
+        /\ LET e == Rec[l]
+               ok == IF Unjudged(e) THEN FALSE ELSE IF PreOK(e) THEN Explained(e) ELSE FALSE
+           IN /\ IF ok THEN TRUE
+                 ELSE Mismatch(l, e, IF Unjudged(e) THEN "unjudged-after-mismatch" ELSE IF PreOK(e) THEN e.op ELSE "operand-is-not-the-model-state")
+              /\ bad' = IF ok THEN bad ELSE e.cid
+              /\ IF e.op = "scale_cx"
+                   THEN IF e.src = "mul_assign"
+                          THEN /\ cur' = (IF ok THEN TLin(e.pre, e.s, e.prei, -e.si) ELSE e.rt)
+                               /\ curi' = (IF ok THEN TLin(e.pre, e.si, e.prei, e.s) ELSE e.rti)
+                          ELSE UNCHANGED <<cur, curi>>
+                   ELSE IF TwoParts(e) THEN UNCHANGED <<cur, curi>>
+                   ELSE IF ImPart(e) THEN cur' = cur /\ curi' = NextPart(e, curi, ok)
+                   ELSE cur' = NextPart(e, cur, ok) /\ curi' = curi
         /\ l' = l + 1
 Spec == Init /\ [][Step]_vars
 =============================================================================
